@@ -124,6 +124,19 @@ def run(ck: Check):
                             expected=texp[off + bad], observed=[int(v) for v in got[bad]], signature=dict(sig, what="so-vs-torch"))
                 break
             ck.count("rows_compared", bs)
+        # the same batch in other containers / memory layouts
+        try:
+            base = [[int(v) for v in np.array(g).reshape(-1)] for g in compiled.forward(net, xb.tolist())]
+            for vname, res in compiled.forward_variants(net, ref_rows, shape=spec["input_shape"]).items():
+                ck.count("input_variant_batches")
+                if isinstance(res, Exception):
+                    ck.disagree("forward raised on a valid Boolean batch given in another container / layout", dict(case, variant=vname),
+                                observed=repr(res)[:200], signature=dict(sig, what="variant-raises", variant=vname))
+                elif res != base:
+                    ck.disagree("result depends on the container / memory layout of the Boolean batch", dict(case, variant=vname),
+                                signature=dict(sig, what="variant", variant=vname))
+        except Exception as e:
+            ck.notes.append(f"input variants skipped for {name}: {e!r}"[:200])
     # (i) verified validator in the kernel, on every parsed program
     chunks = [items[i:i + 3] for i in range(0, len(items), 3)]
     texts = []
